@@ -77,6 +77,9 @@ package combinator
 //@   ensures  [curtailed;C01,C02] !hit && curtail ==> ncalls() == 0 && n == nil && err == nil && forall x int :: data.Member(data.ElemsOf(cp), x) == (x == parserIndex)
 //@   ensures  [miss;C01,C03] !hit && !curtail ==> ncalls() == 1 && callarg[*parsley.Context](1, 1) == ctx && callarg[parsley.Pos](1, 3) == pos && sameAlts(n, callres[parsley.Node](1, 0)) && same(cp, callres[data.IntSet](1, 1)) && same(err, callres[parsley.Error](1, 2))
 //@   ensures  [inc;C02] !hit && !curtail ==> data.MapOf(callarg[data.IntMap](1, 2))[parserIndex] == data.MapOf(lrc)[parserIndex] + 1 && forall k int :: k != parserIndex ==> data.MapOf(callarg[data.IntMap](1, 2))[k] == data.MapOf(lrc)[k]
+//@   ensures  [stored;C03,C01] !hit && !curtail ==> ctx.ResultCache()[parserIndex][pos] != nil && same(ctx.ResultCache()[parserIndex][pos].Node, n) && same(ctx.ResultCache()[parserIndex][pos].CurtailingParsers, cp) && same(ctx.ResultCache()[parserIndex][pos].Error, err)
+//@   ensures  [stored-ctx;C03,C01] !hit && !curtail ==> forall k int :: dom(data.MapOf(ctx.ResultCache()[parserIndex][pos].LeftRecCtx), k) == (dom(data.MapOf(lrc), k) && data.Member(data.ElemsOf(cp), k))
+//@   ensures  [stored-val;C03,C01] !hit && !curtail ==> forall k int :: dom(data.MapOf(ctx.ResultCache()[parserIndex][pos].LeftRecCtx), k) ==> data.MapOf(ctx.ResultCache()[parserIndex][pos].LeftRecCtx)[k] == data.MapOf(lrc)[k]
 //@   ghost_return when n == nil && err == nil :: parsley.GhostCurtailed = true
 //@   ghost_return when n != nil && parsley.ListArr(n) != 0 && freshid(parsley.ListArr(n)) :: parsley.GhostSpare(parsley.ListArr(n)) = false
 
